@@ -14,6 +14,7 @@ import hashlib
 import itertools
 import json
 import re
+import time
 from concurrent.futures import ThreadPoolExecutor
 
 from engine import tlc
@@ -235,7 +236,7 @@ def render_def(m, rng):
     rng.shuffle(groups)
     words = [w for g in groups for w in g]
     if not words:
-        return rng.choice(["none", "none", " none ", ""])
+        return rng.choice(["none", "none", " none "])
     return rng.choice([" ", " ", "  "]).join(words)
 
 
@@ -251,6 +252,7 @@ def make_real(env, m):
              link=m.get("link"), **m["kw"])
 
 
+BATCH = 40000
 KIND_ORDER = dict(route=0, gram=1, triple=2)
 KIND_ORDER["class"] = 3
 REAL_ONLY = ("kw", "color", "bgcolor", "link", "via", "cv", "d", "fgs", "bgs", "url")
@@ -345,7 +347,13 @@ def run_triple(env, case):
     S = env.Style
     env.clear_caches()
     ms = case["abc"]
-    a, b, c = (make_real(env, m) for m in ms)
+    made = []
+    for m in ms:
+        x, o = env.out(lambda: make_real(env, m))
+        if x is None:      # an operand could not even be built: judge that call on its own
+            return run_route(env, [dict(m, op=m.get("via", "kwargs"))])
+        made.append(x)
+    a, b, c = made
     ab, o_ab = env.out(lambda: a + b)
     bc, o_bc = env.out(lambda: b + c)
     ab_c, o_ab_c = env.out(lambda: (a + b) + c)
@@ -539,55 +547,70 @@ def run(chk: Check):
                        "lru caches of Style.parse/normalize and Color.parse are cleared before each case (isolation, replayability)",
                        "the value of copy/update_link/without_color/from_color/keywords is pinned by the implementation-shaped part only (DRIFT); "
                        "the statement fixes +, combine/chain, parse, str/normalize round trips and eq=>hash"]
+    counts = {}
     if env.digest != COLOR_TABLE_DIGEST:
         chk.drift_note("ANSI_COLOR_NAMES differs from the pinned 9.10.0 table (digest %s); spellings are checked against the edited table" % env.digest[:10])
 
-    cases = []         # (kind, concrete case)
     if chk.replay_only:
         c = chk.replay_only["case"]
-        cases.append((c["kind"], c))
+        stream = iter([(c["kind"], c)])
     else:
-        cases = generate(chk, env)
+        stream = generate(chk, env)
 
-    # ---- execute on the real code ---------------------------------------------------------------------------
-    recs, metas = [], []
-    for kind, c in cases:
-        rec, meta = RUN[kind](env, c)
-        recs.append(rec)
-        metas.append(meta)
-        chk.case((kind, c), _nontrivial(kind, c))
-    verdicts, st = tlc.judge("Trace_Style", recs, cfg="Trace_Style")
-    chk.add_tlc(st, "M3")
-    chk.traces += len(recs)
-    chk.notes["records_by_kind"] = {k: sum(1 for kk, _ in cases if kk == k) for k in ("triple", "route", "class", "gram")}
-
-    rejections, drifts = [], {}
-    for (kind, c), rec, meta, v in zip(cases, recs, metas, verdicts):
-        if v == "ok":
-            continue
-        if v == "no-verdict":
-            raise tlc.TLCFailure("Trace_Style gave no verdict for a %s record: %s" % (kind, json.dumps(c)[:400]))
-        if v.startswith("drift "):
-            sig = "%s %s" % (kind, re.sub(r"\d+", "n", v[6:]))
-            drifts.setdefault(sig, (v, kind, c))
-            continue
-        for clause in v.split(" ; "):
-            for sig in signatures(env, kind, c, rec, meta, clause):
-                rejections.append((sig, KIND_ORDER[kind] * 10 ** 6 + len(json.dumps(c)), clause, c))
+    # ---- execute on the real code and let TLC judge, batch by batch ---------------------------------------
+    rejections, drifts, by_kind, shown = [], {}, {}, set()
+    t_exec = t_judge = 0.0
+    while True:
+        batch = list(itertools.islice(stream, BATCH))
+        if not batch:
+            break
+        t0 = time.time()
+        recs, metas = [], []
+        for kind, c in batch:
+            rec, meta = RUN[kind](env, c)
+            recs.append(rec)
+            metas.append(meta)
+            chk.case((kind, c), _nontrivial(kind, c))
+            by_kind[kind] = by_kind.get(kind, 0) + 1
+            if kind not in shown:
+                shown.add(kind)
+                chk.sample(dict(kind=kind, case=_brief(kind, c), observed=_obs(rec)))
+        t1 = time.time()
+        verdicts, st = tlc.judge("Trace_Style", recs, cfg="Trace_Style")
+        t_exec, t_judge = t_exec + t1 - t0, t_judge + time.time() - t1
+        chk.add_tlc(st, "M3")
+        chk.traces += len(recs)
+        for (kind, c), rec, meta, v in zip(batch, recs, metas, verdicts):
+            if v == "ok":
+                continue
+            if v == "no-verdict":
+                raise tlc.TLCFailure("Trace_Style gave no verdict for a %s record: %s" % (kind, json.dumps(c)[:400]))
+            if v.startswith("drift "):
+                sig = "%s %s" % (kind, re.sub(r"\d+", "n", v[6:]))
+                drifts.setdefault(sig, (v, kind, c))
+                continue
+            for clause in v.split(" ; "):
+                for sig in signatures(env, kind, c, rec, meta, clause):
+                    rejections.append((sig, KIND_ORDER[kind] * 10 ** 6 + len(json.dumps(c)), clause, c))
+        # keep only the smallest witnesses of each signature between batches (all are counted)
+        rejections.sort(key=lambda r: (r[0], r[1]))
+        kept, n = [], {}
+        for r in rejections:
+            n[r[0]] = n.get(r[0], 0) + 1
+            if n[r[0]] <= 25:
+                kept.append(r)
+            else:
+                counts[r[0]] = counts.get(r[0], 0) + 1
+        rejections = kept
+    chk.notes["records_by_kind"] = by_kind
+    chk.notes["phase_wall_s"] = dict(chk.notes.get("phase_wall_s", {}), execute=round(t_exec, 1), judge=round(t_judge, 1))
     for sig, (v, kind, c) in sorted(drifts.items())[:12]:
         chk.drift_note("%s; e.g. %s" % (sig, json.dumps(_brief(kind, c))[:300]))
-    rejections.sort(key=lambda r: (r[0], r[1]))
-    per_sig = {}
     for sig, _, v, c in rejections:
-        per_sig[sig] = per_sig.get(sig, 0) + 1
-        if per_sig[sig] <= 25:            # the smallest witnesses of each signature; all are counted below
-            chk.reject(sig, "%s | witness: %s" % (v, json.dumps(_brief(c["kind"], c))[:420]), c)
-    chk.notes["rejected_cases_by_signature"] = per_sig
-    for kind in ("triple", "route", "class", "gram"):
-        for (k, c), rec in zip(cases, recs):
-            if k == kind:
-                chk.sample(dict(kind=k, case=_brief(k, c), observed=_obs(rec)))
-                break
+        counts[sig] = counts.get(sig, 0) + 1
+        chk.reject(sig, "%s | witness: %s" % (v, json.dumps(_brief(c["kind"], c))[:420]), c)
+    if counts:
+        chk.notes["rejected_cases_by_signature"] = counts
 
 
 def _nontrivial(kind, c):
@@ -638,14 +661,26 @@ def _obs(rec):
     return rec["objs"][:2]
 
 
+def _field(parts):
+    """'attribute 4' -> ' attribute=underline';  'color 2' -> ' color=num'"""
+    if not parts:
+        return ""
+    if parts[0] == "attribute" and len(parts) > 1:
+        return " attribute=" + ATTRS[int(parts[1]) - 1]
+    if parts[0] in ("color", "bgcolor") and len(parts) > 1:
+        return " %s=%s" % (parts[0], {"0": "default", "1": "named", "2": "num", "3": "hex", "4": "rgb"}.get(parts[1], parts[1]))
+    return " " + parts[0]
+
+
 def signatures(env, kind, c, rec, meta, v):
     """narrow, stable labels for a property-part rejection (clause + operation + argument shape)"""
+    kind = rec.get("k", kind)          # a triple whose operand could not be built is judged as a one-step route
     if v.startswith("hash-differs"):
         sigs = set()
         for pr in v.split()[1:]:
             i, j = (int(x) - 1 for x in pr.split("-"))
             if kind == "route":
-                lab = meta["culprit"] if meta["culprit"] != "none" else "pair %s|%s" % (meta["producer"][i], meta["producer"][j])
+                lab = meta["culprit"] if meta["culprit"] != "none" else "pair"
             elif kind == "class":
                 labs = [l for l in (meta["labels"][i], meta["labels"][j]) if l != "none"]
                 lab = labs[0] if labs else "pair"
@@ -657,17 +692,21 @@ def signatures(env, kind, c, rec, meta, v):
             sigs.add("hash-differs op=%s" % lab)
         return sorted(sigs)
     if v.startswith("roundtrip-"):
-        clause, i = v.split()[0], int(v.split()[1]) - 1
+        parts = v.split()
+        clause, i = parts[0] + _field(parts[2:]), int(parts[1]) - 1
         if kind == "route":
             return ["%s op=%s" % (clause, meta["producer"][i])]
         if kind == "triple":
             return ["%s op=%s" % (clause, meta["labels"][i])]
-        return ["%s op=parse toks=%s" % (clause, gram_shape(env, c["d"]))]
+        return ["%s op=parse" % clause]
     if kind == "gram":
-        return ["%s toks=%s" % (" ".join(v.split()[:2]), gram_shape(env, c["d"]))]
+        parts = v.split()
+        return ["%s%s op=parse" % (parts[0], _field(parts[1:]))]
     if kind == "route":
         m = re.match(r"step (\d+) (\w+) (.*)", v)
-        return ["%s op=%s" % (m.group(3), _shape(c["steps"][int(m.group(1)) - 1]))] if m else [v]
+        if not m:
+            return [v]
+        return ["%s op=%s" % (m.group(3), _shape(c["steps"][int(m.group(1)) - 1]) if "steps" in c else m.group(2))]
     return [v]
 
 
@@ -681,7 +720,8 @@ ROUTE_ACTIONS = ["FromKwargs", "ParseDef", "NormParse", "FromColorOp", "AddOp", 
 
 def generate(chk, env):
     rng = chk.rng
-    ncol, nseed, depth = chk.pick(2, 3), chk.pick(7, 9), 3
+    t_gen = time.time()
+    ncol, nseed, depth = chk.pick(2, 3), chk.pick(6, 9), 3
     law_cfg = CFG % (ncol, nseed, depth, "derived") + "INIT LawInit\nNEXT LawNext\n" + "".join(
         "INVARIANT %s\n" % i for i in LAW_INV) + "CHECK_DEADLOCK FALSE\n"
     route_cfg = lambda design: CFG % (3, nseed, depth, design) + "SPECIFICATION RouteSpec\nVIEW View\n" + "".join(
@@ -719,13 +759,13 @@ def generate(chk, env):
         raise tlc.TLCFailure("no routes generated\n" + r_gen.out[-2000:])
     chk.notes["tlc_generated_routes"] = len(behs)
 
-    cases = []
+    chk.notes["phase_wall_s"] = dict(tlc_m1_m2=round(time.time() - t_gen, 1))
     cpool = color_pool(env, rng, chk.pick(20, 200))
     # ---- routes and classes
     classes = {}
     for b in behs:
         classes.setdefault(json.dumps(b["val"], sort_keys=True), []).append(b["beh"])
-    K, reps = chk.pick(5, 13), chk.pick(1, 3)
+    K, reps = max(chk.pick(5, 13), -(-156 // len(classes))), chk.pick(1, 2)      # classes * K >= 156: every ordered attribute pair is bound
     bindings = {}
     groups = {}
     for ci, (val, routes) in enumerate(sorted(classes.items())):
@@ -735,7 +775,7 @@ def generate(chk, env):
                 bi = (ci * K + (ri + t) % K) % 156
                 bind = bindings.get(bi) or bindings.setdefault(bi, Binding(env, bi, rng, cpool))
                 steps = instantiate(env, beh, bind, rng)
-                cases.append(("route", dict(kind="route", steps=steps)))
+                yield "route", dict(kind="route", steps=steps)
                 groups.setdefault((val, bi), []).append((tuple(o["k"] for o in beh), steps, bind))
     chk.notes["route_classes"] = len(classes)
     chk.notes["attribute_pairs_bound"] = len(bindings)
@@ -747,7 +787,7 @@ def generate(chk, env):
         bind = members[0][2]
         canon = [dict(bind.maker(json.loads(val)), op="kwargs", cv="str")]
         for i in range(0, len(reps_), 7):
-            cases.append(("class", dict(kind="class", members=[canon] + reps_[i:i + 7])))
+            yield "class", dict(kind="class", members=[canon] + reps_[i:i + 7])
     # ---- triples: every ordered pair of real attributes over the model's small domain, plus random full styles
     small = [None, "red", "#010203", "default"]
     per_pair = chk.pick(30, 729)
@@ -766,18 +806,18 @@ def generate(chk, env):
                     m["via"] = "parse"
                     m["d"] = render_def(m, rng)
                 abc.append(m)
-            cases.append(("triple", dict(kind="triple", abc=abc)))
-    for _ in range(chk.pick(2500, 60000)):
+            yield "triple", dict(kind="triple", abc=abc)
+    for _ in range(chk.pick(2500, 40000)):
         dens = rng.choice([0.08, 0.2, 0.33])
-        cases.append(("triple", dict(kind="triple", abc=[random_maker(rng, cpool, dens=dens) for _ in range(3)])))
+        yield "triple", dict(kind="triple", abc=[random_maker(rng, cpool, dens=dens) for _ in range(3)])
     # ---- grammar: all definitions of <= 2 (quick) / 3 (thorough) words, random longer ones
     words = GRAM_WORDS
     chk.notes["grammar_vocabulary"] = len(words)
-    cases.append(("gram", dict(kind="gram", d="")))
+    yield "gram", dict(kind="gram", d="")
     for n in range(1, chk.pick(2, 3) + 1):
         for ws in itertools.product(words, repeat=n):
-            cases.append(("gram", dict(kind="gram", d=" ".join(ws))))
-    for _ in range(chk.pick(6000, 120000)):
+            yield "gram", dict(kind="gram", d=" ".join(ws))
+    for _ in range(chk.pick(6000, 80000)):
         n = rng.randint(3, 6)
         ws = []
         while len(ws) < n:
@@ -793,5 +833,4 @@ def generate(chk, env):
                 ws.append(rng.choice(cpool))
             else:
                 ws.append(w)
-        cases.append(("gram", dict(kind="gram", d=" ".join(ws))))
-    return cases
+        yield "gram", dict(kind="gram", d=" ".join(ws))
